@@ -71,7 +71,9 @@ func TestLinCmpSound(t *testing.T) {
 	for i := 0; i < 20000; i++ {
 		a, b := gen(0), gen(0)
 		var got, want *T
-		switch rnd.Intn(4) {
+		switch rnd.Intn(5) {
+		case 4:
+			got, want = Sub(a, b), mk(OSub, 64, a, b)
 		case 0:
 			got, want = Ult(a, b), mk(OUlt, 0, a, b)
 		case 1:
@@ -79,7 +81,7 @@ func TestLinCmpSound(t *testing.T) {
 		case 2:
 			c, d := gen(0), gen(0)
 			got, want = Slt(Sub(a, b), Sub(c, d)), mk(OSlt, 0, mk(OSub, 64, a, b), mk(OSub, 64, c, d))
-		default:
+		case 3:
 			got, want = Slt(Const(64, 0), Sub(a, b)), mk(OSlt, 0, Const(64, 0), mk(OSub, 64, a, b))
 		}
 		for j := 0; j < 6; j++ {
@@ -97,5 +99,59 @@ func TestLinCmpSound(t *testing.T) {
 				t.Fatalf("mismatch: got %v (%s) want %v (%s) under %v", g, got, w, want, m.Syms)
 			}
 		}
+	}
+}
+
+// narrow widths: signed comparisons of 8/16-bit sums and differences
+func TestLinCmpNarrow(t *testing.T) {
+	rnd := rand.New(rand.NewSource(11))
+	for _, w := range []uint8{8, 16, 32} {
+		x := Sym("x", w)
+		y := Sym("y", w)
+		his := []uint64{3, 100, Mask(w) >> 1, Mask(w)>>1 + 1, Mask(w)}
+		for i := 0; i < 4000; i++ {
+			hx, hy := his[rnd.Intn(len(his))], his[rnd.Intn(len(his))]
+			x = Sym("x", w)
+			y = Sym("y", w)
+			x.SetRange(0, hx)
+			y.SetRange(0, hy)
+			ops := []*T{x, y, Add(x, Const(w, uint64(rnd.Intn(5)))), Add(y, Const(w, uint64(rnd.Intn(5)))), Sub(x, y), Sub(y, x), Const(w, uint64(rnd.Intn(6))), Const(w, Mask(w)-uint64(rnd.Intn(3)))}
+			a, b := ops[rnd.Intn(len(ops))], ops[rnd.Intn(len(ops))]
+			var got, want *T
+			if rnd.Intn(2) == 0 {
+				got, want = Slt(a, b), mk(OSlt, 0, a, b)
+			} else {
+				got, want = Ult(a, b), mk(OUlt, 0, a, b)
+			}
+			for j := 0; j < 8; j++ {
+				m := NewModel()
+				m.Syms["x"] = uint64(rnd.Int63n(int64(hx) + 1))
+				m.Syms["y"] = uint64(rnd.Int63n(int64(hy) + 1))
+				if rnd.Intn(3) == 0 {
+					m.Syms["x"] = hx
+				}
+				if rnd.Intn(3) == 0 {
+					m.Syms["y"] = hy
+				}
+				g := NewEvaluator(m).Eval(got)
+				wv := NewEvaluator(m).Eval(want)
+				if g != wv {
+					t.Fatalf("w=%d mismatch: got %v (%s) want %v (%s) under %v (ranges %d %d)", w, g, got, wv, want, m.Syms, hx, hy)
+				}
+			}
+		}
+	}
+}
+
+// a wrapping addition must not be treated as an exact sum after its interval was refined by a learned fact
+func TestRefineWrappingAdd(t *testing.T) {
+	x := Sym("x", 32)
+	zx := ZExt(x, 64)
+	zx.SetRange(0, 70000)
+	d := Add(zx, Const(64, ^uint64(0)-32753)) // zx - 32754 (wraps for small zx)
+	Refine(d, 0, 5)                          // learned: d < 6
+	Refine(d, 6, ^uint64(0))                 // on another occasion: d >= 6; must not touch zx through the wrapped add
+	if lo, hi := zx.Range(); lo != 0 || hi != 70000 {
+		t.Fatalf("operand interval changed through a wrapping add: [%d,%d]", lo, hi)
 	}
 }
